@@ -2,6 +2,7 @@ package main
 
 import (
 	"fmt"
+	"go/types"
 	"strings"
 
 	"golang.org/x/tools/go/ssa"
@@ -18,6 +19,7 @@ func init() {
 		Assumptions: []string{"context.WithCancel semantics: cancelling a parent cancels its children"},
 		Rules: map[string]string{
 			"R1": "ancestors(arg0 of OnPromote) contains a context.With* call K in a claim-set unit whose result #1 is stored to a field TC of the election object; every non-stop claim-clear unit: must-follow of a call of TC's value after the claim Store(false) (skip: TC == nil); the root ancestor is the election context, whose cancel (stored by the same With* call) every stop unit calls",
+			"R3": "every value stored in the promotion-callback field is the registering method's parameter, nil, or a wrapper function that invokes the callback on its own goroutine (no go statement between the wrapper and the callback): the deferred cancel of the promotion goroutine runs after the application's callback returned, not before",
 			"R2": "the value of TC is invoked only in claim-clear units; the only other cancel invoked in the promotion goroutine is that of its own child context, deferred (after the callback)",
 		},
 	})
@@ -59,7 +61,73 @@ func (m *Model) ctxAncestors(v ssa.Value) (chain []*ssa.Call, root ssa.Value) {
 	return chain, v
 }
 
+// callbackIdentityRule (C19-R3): what the promotion goroutine invokes IS the application's
+// callback. The goroutine cancels the promotion context when the invoked value returns (deferred
+// cancel, R2): a wrapper installed by the registration method that runs the callback on another
+// goroutine and may return before it ("supervision" with a time-out) cancels the context of a
+// callback that is still running under a standing term.
+func callbackIdentityRule(c *Ctx, rule string) {
+	m := c.M
+	if m.OnPromote == "" {
+		c.undecided(rule, "promotion callback field", nil, "not found")
+		return
+	}
+	n := 0
+	for _, f := range m.Funcs {
+		eachInstr(f, func(in ssa.Instruction) {
+			st, ok := in.(*ssa.Store)
+			if !ok {
+				return
+			}
+			fld, ok := m.implField(st.Addr)
+			if !ok || fld != m.OnPromote {
+				return
+			}
+			n++
+			v := m.traceValue(st.Val)
+			why := ""
+			switch x := v.(type) {
+			case *ssa.Parameter:
+			case *ssa.Const:
+				if !x.IsNil() {
+					why = "a constant that is not nil"
+				}
+			default:
+				targets := m.funcValueTargets(v)
+				if len(targets) == 0 {
+					why = "the stored value is neither the registering method's parameter nor a function the analysis can resolve: " + m.Sym.Of(v).String()
+				}
+				sig := st.Val.Type().Underlying()
+				for _, t := range targets {
+					// a wrapper: the captured callback must run on the wrapper's own goroutine
+					for _, sp := range m.Spawns() {
+						if !containsFn(m.reachWithFuncArgs(t), sp.Fn) {
+							continue
+						}
+						for _, tg := range sp.Targets {
+							for _, h := range sortedFns(m.staticReach(tg, true)) {
+								eachInstr(h, func(y ssa.Instruction) {
+									if call, ok := y.(*ssa.Call); ok && !call.Call.IsInvoke() && call.Call.StaticCallee() == nil {
+										if types.Identical(call.Call.Value.Type().Underlying(), sig) {
+											why = fmt.Sprintf("the wrapper %s runs the callback on another goroutine (%s at %s): it can return, and the promotion goroutine cancel the context, while the callback is still running", shortFn(t), shortFn(h), c.posOf(y))
+										}
+									}
+								})
+							}
+						}
+					}
+				}
+			}
+			c.check(why == "", rule, "value stored as the promotion callback in "+shortFn(f), in, "%s", why)
+		})
+	}
+	if n == 0 {
+		c.undecided(rule, "stores of the promotion callback", nil, "none found")
+	}
+}
+
 func checkC19(c *Ctx) {
+	callbackIdentityRule(c, "R3")
 	m := c.M
 	// the OnPromote invocation
 	var inv ssa.CallInstruction
